@@ -470,13 +470,14 @@ class Conn:
         bad = set()
         if promised % 2 or promised <= self.hi_peer:
             # a promised id the peer may not use (C09): PROTOCOL_ERROR, or by how that id was closed
+            # (C09 as stated: by how that id was closed if it is a known closed stream, PROTOCOL_ERROR otherwise)
             bad = {C(P)}
             pst = self.get(promised)
-            if pst is not None and pst.state == CLOSED:
+            if pst is not None and pst.state == CLOSED and promised % 2 == 0:
                 if pst.closed_by in ('send-rst', 'recv-rst'):
-                    bad |= {('refuse-promise',)}
+                    bad = {('refuse-promise',), S(SC), C(SC)}
                 else:
-                    bad |= {C(SC)}
+                    bad = {C(SC)}
         if cls in ('idle', 'implicit'):
             return {C(P)}
         if parent % 2 == 0 or not st.local:
